@@ -53,6 +53,9 @@ CLAIMED = {
  "C05": ("exploration", "property-based testing (structured-then-damaged CSV x options, domain-edge values) with a panic/abort oracle, plus coverage-guided libFuzzer targets in the thorough tier",
          "Valid generated inputs are damaged by 0-5 mutations (columns, cells, quoting, encoding, truncation) and combined with every option; fields at the edges of the stated numeric domain are combined in short histories; each run must return a report or a non-empty diagnostic naming a file, row, security or option, and never panic/abort (in-process hook + catch_unwind; a sample through the real binary).",
          "'Never loops' is only observable through the watchdog (inconclusive, not a violation). Two panics are recorded as known findings (F-05c product overflow, F-05e division overflow on rounding residue).", "DESIGN.md section 4 C05"),
+ "C10": ("exploration", "round-trip property-based testing: history -> summary CSV (text) -> re-run with the later rows, compared row by row with the full run",
+         "Error-free histories x every interesting cut date x both summary modes; the summary is written to CSV text, fed back with the rows settling after the cut, and every later row, the final holdings and (annual) the yearly net gains must agree with the full run.",
+         "One known finding (K3, annual loss rows hit by the 30-day rule) is excluded by a classifier on its direct root-cause observation; rounding-residue cases (R5) by theirs.", "DESIGN.md section 4 C10"),
 }
 NOT_YET = "check not built yet in this round (planned: see DESIGN.md section 4)"
 
